@@ -110,6 +110,14 @@ template <class F> void hexgroup_sweep(Ctx &ctx, F visit) {
     for (const char *h = HD; *h; h++) { if (!ctx.mine(idx++) || ctx.expired()) continue;
         for (int pos = 0; pos < 4; pos++) { Str g = "1234"; g[pos] = *h; visit("//[" + g + "::]"); visit("//[::" + g + "]"); visit("//[1:2:3:" + g + ":5:6:7:8]"); visit("//[" + g.substr(pos) + "::1.2.3.4]"); } }
 }
+// dotted decimal texts of one to five parts (the quad rule is met by exactly four), with and without a trailing dot, where the host is the last
+// thing in the text and where something follows: the IPv4-or-registered-name decision looks ahead, and must not look beyond the text
+template <class F> void dotted_family(Ctx &ctx, F visit) {
+    static const char *oc[] = { "0", "25", "255", "256" }; uint64_t idx = 0;
+    for (int k = 1; k <= 5; k++) { int total = 1; for (int i = 0; i < k; i++) total *= 4;
+        for (int code = 0; code < total; code++) { if (!ctx.mine(idx++) || ctx.expired()) continue; Str h; int c = code; for (int i = 0; i < k; i++) { if (i) h += "."; h += oc[c & 3]; c >>= 2; }
+            for (auto tail : { "", "." }) { Str t = h + tail; visit("//" + t); visit("//u@" + t); visit("//" + t + ":1"); visit("//" + t + "/"); visit("s://u@" + t + "?q"); } } }
+}
 template <class F> void octet_product(Ctx &ctx, F visit) {
     static const char *oc[22] = { "0", "9", "10", "99", "100", "199", "200", "249", "250", "255", "256", "260", "300", "00", "01", "1a", "", "19", "20", "25", "26", "29" };
     uint64_t idx = 0;
